@@ -190,7 +190,7 @@ fn sc_step(shape_ix: u32, nt: u32, mode: u32) {
     // ---- C02: optimal transition set, order of the microstep, resulting state
     vnd_check(201, sel_real == sel_ref);
     vnd_check(202, dm.log[..glog_len] == rlog[..]);
-    vnd_check(203, dm.log[glog_len..] == out.log[..]);
+    vnd_check(203, dm.log[glog_len..] == plain(&out.log)[..]);
     let post = get_config(&g);
     vnd_cover(204);
     vnd_check(204, post == out.config);
@@ -227,7 +227,7 @@ fn sc_startup() {
     let post = get_config(&g);
     vnd_cover(210);
     if vnd_is_replay() && (post != out.config || dm.log != out.log) { println!("DEBUG real conf {:?} log {:?}\nDEBUG ref  conf {:?} log {:?}", post, dm.log, out.config, out.log); }
-    vnd_check(210, post == out.config && dm.log == out.log);
+    vnd_check(210, post == out.config && dm.log == plain(&out.log));
     vnd_check(211, get_queue(&g) == out.queue && g.lock().unwrap().running == out.running);
     vnd_check(110, m.sh.legal(mask_of(&post)) && no_dups(&post) && discipline(&m.sh, 0, &dm.log));
     vnd_obs(1, mask_of(&post) as u64);
